@@ -257,3 +257,128 @@ def replay_read_fault(ctx, ob):
     return {"confirmed": got[0] == "returned" and got[1] == "<default>" and after == 0.25,
             "input": {"backend": "sqlite", "recorded": {"random:1": 0.25}, "fault": "sqlite3.OperationalError('database is locked') on the SELECT of get_workflow_data"},
             "observed": {"get_workflow_data_under_fault": list(got), "get_workflow_data_afterwards": after}}
+
+
+# --------------------------------------------------------------------------- the value generators: functions of (workflow, position) only
+GEN_METHODS = ("random", "uuid", "utc_now", "get_base_time", "_deterministic_operation", "_get_next_sequence")
+PURE_MODULE_ATTRS = {"random": {"Random"}, "uuid": {"UUID"}, "hashlib": {"md5", "sha256", "sha1", "blake2b"},
+                     "datetime": {"datetime", "timedelta", "UTC", "timezone"}, "time": set(), "secrets": set(), "os": set()}
+
+
+def generators_pure(ctx: RunCtx):
+    """Ownership/purity obligation over the real AST of DeterministicExecutor: the deterministic value operations read nothing but their
+    executor (workflow identity, position counters), the recorded data and constants - no module-level object that several executors
+    (threads, workflows) would share, and none of the standard library's hidden global generators."""
+    WD = "pynenc.workflow.workflow_deterministic"
+    mod = ctx.src.module(WD)
+    shared = {}           # module-level names bound to instances / containers (anything that is not a def, class, import, constant or type alias)
+    for node in mod.tree.body:
+        targets = node.targets if isinstance(node, ast.Assign) else [node.target] if isinstance(node, ast.AnnAssign) and node.value is not None else []
+        val = getattr(node, "value", None)
+        for t in targets:
+            if isinstance(t, ast.Name) and isinstance(val, (ast.Call, ast.Dict, ast.List, ast.Set, ast.ListComp, ast.DictComp, ast.SetComp)):
+                f = val.func if isinstance(val, ast.Call) else None
+                fname = f.id if isinstance(f, ast.Name) else f.attr if isinstance(f, ast.Attribute) else ""
+                if fname in ("TypeVar", "getLogger", "NewType", "namedtuple"):
+                    continue
+                shared[t.id] = node.lineno
+    cls = ctx.src.klass(WD, "DeterministicExecutor")
+    methods = {n.name: n for n in cls.body if isinstance(n, (ast.FunctionDef, ast.AsyncFunctionDef))}
+    bad, scanned = [], []
+    todo, seen = [m for m in GEN_METHODS if m in methods], set()
+    while todo:
+        m = todo.pop()
+        if m in seen:
+            continue
+        seen.add(m)
+        scanned.append(m)
+        for node in ast.walk(methods[m]):
+            if isinstance(node, ast.Name) and isinstance(node.ctx, ast.Load) and node.id in shared:
+                bad.append(f"{m} line {node.lineno}: uses the module-level object {node.id} (defined line {shared[node.id]}), shared by every executor of the process")
+            if isinstance(node, (ast.Global, ast.Nonlocal)) and not isinstance(node, ast.Nonlocal):
+                bad.append(f"{m} line {node.lineno}: global statement")
+            if isinstance(node, ast.Attribute) and isinstance(node.value, ast.Name):
+                base, attr = node.value.id, node.attr
+                if base in PURE_MODULE_ATTRS and base in mod.imports and mod.imports[base][1] is None and attr not in PURE_MODULE_ATTRS[base]:
+                    bad.append(f"{m} line {node.lineno}: {base}.{attr} (process-wide state of the standard library, not a function of workflow and position)")
+                if base == "self" and attr in methods and attr not in seen:
+                    todo.append(attr)
+    missing = [m for m in ("random", "uuid", "utc_now", "_deterministic_operation") if m not in methods]
+    ok = not bad and not missing
+    o = Obligation(name=f"{PID}/ownership/DeterministicExecutor.generators/values-are-functions-of-workflow-and-position-only(no-shared-generator-state)",
+                   kind="perm", pc=[], goal=z3.BoolVal(ok), function=f"{WD}:DeterministicExecutor.random")
+    o.status, o.backend, o.detail = ("discharged" if ok else "failed"), "ast-scan", " | ".join(sorted(set(bad)) + [f"missing method {m}" for m in missing])[:600]
+    o.extra = {"methods_scanned": sorted(scanned), "module_level_objects": sorted(shared)}
+    return [o]
+
+
+def preempted_generators(ctx: RunCtx) -> BoundedResult:
+    """Real DeterministicExecutor on the real in-memory backend: workflow A's random()/uuid()/utc_now() is interrupted at every line boundary
+    inside workflow_deterministic.py and workflow B's complete operation runs there; A's and B's values must be the ones the same workflows get
+    when they run alone in a fresh application (values are a function of workflow and position), and a later replay must return them again."""
+    import sys
+    from .realapp import new_invocation, real_app
+    res = BoundedResult("preempted_generators", "real DeterministicExecutor: operation of workflow A in {random, uuid} x a complete operation of workflow B in {random, uuid, utc_now} "
+                        "executed at line boundary k of A's operation inside workflow_deterministic.py (every k); A's and B's values compared with the same workflows run "
+                        "alone on a fresh app, then replayed by fresh executors")
+    import pynenc.workflow.workflow_deterministic as wd
+    wd_file = wd.__file__
+    n = 0
+    for op_a in ("random", "uuid"):
+        for op_b in ("random", "uuid", "utc_now"):
+            k = 0
+            while True:
+                k += 1
+                n += 1
+                with real_app("mem") as app, real_app("mem") as ref:
+                    A, B = new_invocation(app).workflow, new_invocation(app).workflow
+                    ea, eb = wd.DeterministicExecutor(A, app), wd.DeterministicExecutor(B, app)
+                    lines, fired, got_b = [0], [False], []
+
+                    def tracer(frame, event, arg):
+                        if frame.f_code.co_filename != wd_file:
+                            return None
+
+                        def local(frame, event, arg):
+                            if event == "line" and not fired[0]:
+                                lines[0] += 1
+                                if lines[0] == k:
+                                    fired[0] = True
+                                    sys.settrace(None)
+                                    try:
+                                        got_b.append(getattr(eb, op_b)())
+                                    finally:
+                                        sys.settrace(tracer)
+                            return local
+                        return local
+                    sys.settrace(tracer)
+                    try:
+                        got_a = [getattr(ea, op_a)()]
+                    finally:
+                        sys.settrace(None)
+                    total = lines[0]
+                    got_a.append(getattr(ea, op_a)())
+                    if not got_b:
+                        got_b.append(getattr(eb, op_b)())
+                    want_a = [getattr(wd.DeterministicExecutor(A, ref), op_a)() for _ in range(1)]
+                    ra = wd.DeterministicExecutor(A, ref)
+                    want_a = [getattr(ra, op_a)(), getattr(ra, op_a)()]
+                    want_b = [getattr(wd.DeterministicExecutor(B, ref), op_b)()] if op_b != "utc_now" else None
+                    replay_a = wd.DeterministicExecutor(A, app)
+                    rep_a = [getattr(replay_a, op_a)(), getattr(replay_a, op_a)()]
+                    problems = []
+                    if got_a != want_a:
+                        problems.append(f"A's {op_a} values {got_a} differ from the ones workflow A gets alone {want_a}")
+                    if want_b is not None and got_b != want_b:
+                        problems.append(f"B's {op_b} value {got_b} differs from the one workflow B gets alone {want_b}")
+                    if rep_a != got_a:
+                        problems.append(f"replay of A returns {rep_a}, the first execution saw {got_a}")
+                    if problems and len(res.failures) < 8:
+                        res.failures.append({"what": f"A.{op_a}() interrupted at line step {k} of workflow_deterministic.py by B.{op_b}(): " + "; ".join(problems)[:500],
+                                             "input": {"op_a": op_a, "op_b": op_b, "k": k}, "finding_key": "generators:mixed"})
+                if k > total:
+                    break
+    res.cases = n
+    res.distinct = n
+    res.samples = [{"op_a": "random", "op_b": "random", "k": 9}]
+    return res
